@@ -68,7 +68,8 @@ type Scenario struct {
 	UWG       bool      `json:"uwg,omitempty"`
 	Bars      []BarSpec `json:"bars"`
 	Clients   [][]Op    `json:"clients"`
-	End       string    `json:"end"` // natural | cancel | shutdown
+	Waiters   [][]Op    `json:"waiters,omitempty"` // goroutines that are not joined before the scenario's ending (they block in Bar.Wait until then)
+	End       string    `json:"end"`               // natural | cancel | shutdown
 	Trig      *Trigger  `json:"trig,omitempty"`
 	OutFailAt int       `json:"out_fail_at,omitempty"` // k-th output Write fails
 	Policy    string    `json:"policy"`                // none | light | heavy | targeted
